@@ -140,7 +140,7 @@ Unmask(p, key) == [i \in 1..Len(p) |-> p[i] ^^ key[((i - 1) % 4) + 1]]
    memory bound could not hold); exactly max_msg_size -> either outcome.           *)
 LenDone(r, c, rej) ==
     LET data == ~IsCtl(r.op)
-        acc == IF r.op = OpCont /\ r.inMsg THEN Len(r.msgAcc) ELSE 0
+        acc == IF data /\ r.inMsg THEN Len(r.msgAcc) ELSE 0   \* (a doomed interleaved frame counts too)
         total == IF r.need = Big THEN Big ELSE acc + r.need
         over == Mut # "nocap" /\ data /\ c.max > 0 /\ total > c.max
         atcap == Mut # "nocap" /\ data /\ c.max > 0 /\ total >= c.max
